@@ -8,6 +8,7 @@ Monitors:
   M  metamorphic, shipped *.order + fixture corpus: deleting an unrelated top-level row from old and new leaves the relative order of the remaining commands unchanged.
 """
 import random
+import re
 from collections import OrderedDict as odict
 
 from vf.gen import rb as G
@@ -27,8 +28,8 @@ ASSUMPTIONS = [
     "commands no ordering rule mentions are not ranked; ties inside one rank are not judged",
     "metamorphic relation is evaluated only when the reduced patch's commands are a sub-multiset of the full patch's commands (otherwise the deleted row was not unrelated)",
 ]
-FLOORS = {"quick": {"patches_ranked": 1500, "ranked_pairs": 3000, "sort_calls": 3000, "configs_ordered": 1500, "metamorphic_pairs": 150, "several_global_rule_cases": 300, "echoed_family_cases": 300, "unordered_blocks_compared": 500},
-          "thorough": {"patches_ranked": 60000, "ranked_pairs": 100000, "sort_calls": 100000, "configs_ordered": 60000, "metamorphic_pairs": 300, "several_global_rule_cases": 10000, "echoed_family_cases": 10000, "unordered_blocks_compared": 15000}}
+FLOORS = {"quick": {"patches_ranked": 1500, "ranked_pairs": 3000, "sort_calls": 3000, "configs_ordered": 1500, "metamorphic_pairs": 150, "several_global_rule_cases": 300, "echoed_family_cases": 300, "unordered_blocks_compared": 500, "commented_patches": 300, "commented_commands": 600, "scoped_rule_cases": 300},
+          "thorough": {"patches_ranked": 60000, "ranked_pairs": 100000, "sort_calls": 100000, "configs_ordered": 60000, "metamorphic_pairs": 300, "several_global_rule_cases": 10000, "echoed_family_cases": 10000, "unordered_blocks_compared": 15000, "commented_patches": 10000, "commented_commands": 20000, "scoped_rule_cases": 10000}}
 VENDORS = c01.BLOCK_VENDORS
 KNOWN_ZERO = "C08/first-ordering-rule-has-rank-zero"
 
@@ -41,7 +42,7 @@ def plan(tier, seed):
     return specs
 
 
-def gen_order(rng, rules, prefix, depth=0, many_globals=False, echo=False):
+def gen_order(rng, rules, prefix, depth=0, many_globals=False, echo=False, scoped=False):
     pats = [r for r in rules if r.pat != "~" and not r.ignore]
     rng.shuffle(pats)
     out = []
@@ -57,11 +58,13 @@ def gen_order(rng, rules, prefix, depth=0, many_globals=False, echo=False):
             out.append(RO.ORule(prefix + " " + r.pat, order_reverse=True))
             continue
         o = RO.ORule(r.pat)
+        if scoped and rng.random() < 0.35:
+            o.scope = "patch"  # a rule that orders patches only; `annet gen` / `annet diff` order the configuration without it
         if echo and r.children and depth == 0 and rng.random() < 0.7:
             out.append(o)  # a block the ordering rulebook mentions without saying anything about its children
             continue
         if r.children and rng.random() < 0.8:
-            o.children = gen_order(rng, r.children, prefix, depth + 1, many_globals)
+            o.children = gen_order(rng, r.children, prefix, depth + 1, many_globals, False, scoped)
         elif not r.children and rng.random() < 0.1:
             o.glob = True
         out.append(o)
@@ -190,7 +193,7 @@ def check_config_level(tree_before, tree_after, olevel, prefix, acc, w, path=())
     return True
 
 
-def make_case(seed, many_globals=False, echo=False):
+def make_case(seed, many_globals=False, echo=False, scoped=False):
     rng = random.Random(seed)
     vname = VENDORS[rng.randrange(len(VENDORS))]
     v, prefix, exitw, hw, fmt = c01.vendor_env(vname)
@@ -211,25 +214,27 @@ def make_case(seed, many_globals=False, echo=False):
                 for l_ in leaves[:3]:
                     if all(c.pat != l_.pat for c in b.children):
                         b.children.append(RB.Rule(l_.pat))
-    order = gen_order(rng, rules, prefix, 0, many_globals, echo)
+    order = gen_order(rng, rules, prefix, 0, many_globals, echo, scoped)
     old = G.gen_tree(rng, rules, fill=0.75)
     new = G.mutate_tree(rng, old, rules, rate=0.6) if rng.random() < 0.7 else G.gen_tree(rng, rules, fill=0.75)
     return vname, rules, order, old, new
 
 
-def check_case(seed, acc, many_globals=False, echo=False):
+def check_case(seed, acc, many_globals=False, echo=False, scoped=False):
     from annet.api import _diff_and_patch
     from annet.annlib.patching import Orderer
     from annet.annlib.rbparser.ordering import compile_ordering_text
     install_sort_hook()
-    vname, rules, order, old, new = make_case(seed, many_globals, echo)
+    vname, rules, order, old, new = make_case(seed, many_globals, echo, scoped)
+    if scoped:
+        acc.count("scoped_rule_cases")
     if many_globals:
         acc.count("several_global_rule_cases")
     if echo:
         acc.count("echoed_family_cases")
     v, prefix, exitw, hw, fmt = c01.vendor_env(vname)
     rtext, otext = RB.render(rules), RO.render(order)
-    w = {"seed": seed, "many_globals": many_globals, "echo": echo, "vendor": vname, "rulebook": rtext, "ordering": otext, "old": plain(old), "new": plain(new)}
+    w = {"seed": seed, "many_globals": many_globals, "echo": echo, "scoped": scoped, "vendor": vname, "rulebook": rtext, "ordering": otext, "old": plain(old), "new": plain(new)}
     try:
         rb = c01.compile_rb(rtext, vname)
         rb["ordering"] = compile_ordering_text(otext, vname)
@@ -262,7 +267,7 @@ def check_case(seed, acc, many_globals=False, echo=False):
     except Exception as e:
         acc.violation("C08/exception/%s" % type(e).__name__, "patch computation with an empty ordering rulebook raised", dict(w, error=repr(e)[:300]))
         return None
-    check_level([(str(i.row), i.child) for i in patch.itms], order, prefix, rl, rg, acc, w)
+    check_level([(str(i.row), i.child) for i in patch.itms], RO.for_scope(order, "patch"), prefix, rl, rg, acc, w)
     w.pop("_neutral", None)
     acc.case([vname, rtext, otext, w["old"], w["new"]], nontrivial=bool(w.pop("_nontrivial", False)))
     # order_config on new (what `annet gen` prints); negated rows are legitimate config lines too (`undo portswitch`)
@@ -282,8 +287,66 @@ def check_case(seed, acc, many_globals=False, echo=False):
     elif multiset_tree(plain(once)) != multiset_tree(plain(new)):
         acc.violation("C08/order_config-not-a-permutation", "ordering a configuration lost, duplicated or re-parented a line", dict(w, ordered=plain(once)))
     else:
-        check_config_level(plain(new), plain(once), order, prefix, acc, w)
+        check_config_level(plain(new), plain(once), RO.for_scope(order, None), prefix, acc, w)
     return w
+
+
+# ---- K: comments are presentation only -------------------------------------------------------------------------
+def check_comments_case(seed, acc):
+    """`annet patch --add-comments`: rules carrying %comment get their comment appended to the command; the order of the commands
+    must be the one of the same patch without comments (ordering rules anchored at the end of the command are the sensitive ones)"""
+    from annet.api import _diff_and_patch
+    from annet.annlib.rbparser.ordering import compile_ordering_text
+    rng = random.Random(seed)
+    vname = VENDORS[rng.randrange(len(VENDORS))]
+    v, prefix, exitw, hw, fmt = c01.vendor_env(vname)
+    rules = G.gen_rulebook(rng, depth=3, prefix=prefix, allow=("global", "catchall"))
+    n = [0]
+
+    def comment(level):
+        for r in level:
+            if r.pat != "~" and rng.random() < 0.5:
+                n[0] += 1
+                r.extra = "%%comment=cmt%d" % n[0]
+            comment(r.children)
+    comment(rules)
+    order = gen_order(rng, rules, prefix)
+
+    def anchor(level):
+        for o in level:
+            if not o.children and not o.glob and not o.pat.endswith("~") and rng.random() < 0.5:
+                o.pat += "$"
+            anchor(o.children)
+    anchor(order)
+    old = G.gen_tree(rng, rules, fill=0.75)
+    new = G.mutate_tree(rng, old, rules, rate=0.6) if rng.random() < 0.7 else G.gen_tree(rng, rules, fill=0.75)
+    rtext, otext = RB.render(rules), RO.render(order)
+    w = {"seed": seed, "comments": True, "vendor": vname, "rulebook": rtext, "ordering": otext, "old": plain(old), "new": plain(new)}
+    try:
+        rb = c01.compile_rb(rtext, vname)
+        rb["ordering"] = compile_ordering_text(otext, vname)
+        _, p0 = _diff_and_patch(c01.Dev(hw), old, new, None, None, False, rb=rb)
+        _, p1 = _diff_and_patch(c01.Dev(hw), old, new, None, None, True, rb=rb)
+    except Exception as e:
+        acc.violation("C08/exception/%s" % type(e).__name__, "patch computation raised", dict(w, error=repr(e)[:300]))
+        return
+
+    def ser(pt, strip):
+        out = []
+        for i in pt.itms:
+            row = str(i.row)
+            if strip:
+                row = re.sub(r"( cmt\d+)+$", "", row)
+            out.append([row, ser(i.child, strip) if i.child is not None else None])
+        return out
+    a, b = ser(p0, False), ser(p1, True)
+    commented = sum(1 for x in fmt.patch(p1).split("\n") if re.search(r" cmt\d+$", x))
+    acc.count("commented_patches")
+    acc.count("commented_commands", commented)
+    acc.case(["comments", vname, rtext, otext, w["old"], w["new"]], nontrivial=commented >= 2)
+    if a != b:
+        acc.violation("C08/comments-change-the-order", "with --add-comments the commands come in another order than without (comments are presentation only)",
+                      dict(w, without_comments=fmt.patch(p0).split("\n")[:40], with_comments=fmt.patch(p1).split("\n")[:40]))
 
 
 # ---- M: metamorphic on the shipped ordering rulebooks ---------------------------------------------
@@ -394,10 +457,12 @@ def run_meta(spec, acc):
 def run_shard(spec, acc):
     if spec["mode"] == "replay":
         w = spec["witness"]
-        if w.get("meta"):
+        if w.get("comments"):
+            check_comments_case(w["seed"], acc)
+        elif w.get("meta"):
             run_meta({"tier": "thorough", "shard": 0, "nshards": 1, "only": w.get("sample")}, acc)
         else:
-            check_case(w["seed"], acc, many_globals=bool(w.get("many_globals")), echo=bool(w.get("echo")))
+            check_case(w["seed"], acc, many_globals=bool(w.get("many_globals")), echo=bool(w.get("echo")), scoped=bool(w.get("scoped")))
         return
     if spec["mode"] == "meta":
         return run_meta(spec, acc)
@@ -412,3 +477,7 @@ def run_shard(spec, acc):
             check_case(rng.randrange(1 << 48), acc, many_globals=True)
         if j % 5 == 2:
             check_case(rng.randrange(1 << 48), acc, echo=True)
+        if j % 5 == 0:
+            check_comments_case(rng.randrange(1 << 48), acc)
+        if j % 5 == 3:
+            check_case(rng.randrange(1 << 48), acc, scoped=True)
